@@ -117,6 +117,34 @@ pub fn run(ctx: &mut Ctx) {
             if idx % 9973 == 0 { ctx.sample(&format!("name candidate {:?} classes {} -> {}", s, pat, doc_for("element", &s))); }
         }
     }
+    // part 2b: the same candidates behind the literal stems the grammar looks ahead past ("xmlns" in attribute
+    // names, "xml" in PI targets): a name that merely begins with a keyword is an ordinary name
+    const STEMS: &[&str] = &["xmlns", "xml", "xm", "XML", "xmlnsx", "a:xmlns", "xml:xmlns"];
+    let sufmax = if ctx.thorough { 3 } else { 2 };
+    let mut sidx = 40_000_000u64;
+    let mut suf: Vec<Vec<usize>> = vec![vec![]];
+    for len in 0..=sufmax {
+        if len > 0 {
+            let mut next = vec![];
+            for c in &suf { for k in 0..REPS.len() { let mut v = c.clone(); v.push(k); next.push(v); } }
+            suf = next;
+        }
+        for c in &suf {
+            sidx += 1;
+            if !ctx.mine(sidx) { continue; }
+            let tail: String = c.iter().map(|k| REPS[*k]).collect();
+            ctx.begin(sidx, &format!("keyword stems + {:?}", tail));
+            for stem in STEMS {
+                let s = format!("{}{}", stem, tail);
+                let pat: String = s.chars().map(class_of).collect();
+                for pos in ["element", "attribute", "pi", "entity"] {
+                    if let Some((sig, text)) = check_name(pos, &s) { ctx.violation(sidx, &sig, &format!("candidate {:?} (classes {}) in {}", s, pat, text), &[("pos", pos), ("name", &s)]); }
+                    ctx.count(&format!("names/stem/{}", pos));
+                }
+                ctx.nontrivial(&s);
+            }
+        }
+    }
     in_situ(ctx);
 }
 
